@@ -88,10 +88,34 @@ def check_lt_agree(check: Check, repo: Repo, rule: str = "LT-AGREE", scope: list
                 check.ob(rule, node, f"{name} = re.compile({pat!r})", ok, why)
                 counts["regex"] += 1
                 line_regexes[name] = pat
+        # names bound to the standard library's own line handlers: textwrap.* and inspect.cleandoc are written on top
+        # of str.splitlines() (textwrap.indent additionally leaves white-space-only lines alone), str.expandtabs resets
+        # its column on the same set
+        stdlib_line_fns: dict[str, str] = {}
+        for st in ast.walk(mod.tree):
+            if isinstance(st, ast.ImportFrom) and st.module in ("textwrap", "inspect") and st.level == 0:
+                for al in st.names:
+                    if st.module == "textwrap" or al.name in ("cleandoc", "getdoc"):
+                        stdlib_line_fns[al.asname or al.name] = f"{st.module}.{al.name}"
+            elif isinstance(st, ast.Import):
+                for al in st.names:
+                    if al.name == "textwrap":
+                        stdlib_line_fns[(al.asname or al.name) + ".*"] = "textwrap"
         for n in ast.walk(mod.tree):
             if not isinstance(n, ast.Call):
                 continue
             attr = last_attr(n)
+            fname = n.func.id if isinstance(n.func, ast.Name) else None
+            via_mod = isinstance(n.func, ast.Attribute) and isinstance(n.func.value, ast.Name) and (n.func.value.id + ".*") in stdlib_line_fns
+            if (fname in stdlib_line_fns) or via_mod:
+                what = stdlib_line_fns.get(fname or "", "textwrap." + str(attr))
+                check.ob(
+                    rule, n, node_text(n), False,
+                    f"{what}() finds its lines with str.splitlines(): VT, FF, FS, GS, RS, NEL, LS and PS count as line ends "
+                    "(and textwrap.indent skips white-space-only lines), which are ordinary characters of a GraphQL string",
+                )
+                counts["splitlines"] += 1
+                continue
             if attr == "splitlines" and isinstance(n.func, ast.Attribute):
                 check.ob(
                     rule, n, node_text(n), False,
